@@ -185,7 +185,7 @@ func verifFrameSize(an verifAnalysis, name string) (int64, bool) {
 		return 0, false
 	}
 	for mangled, insts := range compiled.Functions {
-		if !verifHasSuffix(mangled, "_"+name) {
+		if !verifHasSuffix(mangled, "_"+name) && !verifHasSuffix(mangled, "."+name) {
 			continue
 		}
 		for _, in := range insts {
